@@ -180,11 +180,13 @@ def inject(scratch, prop, pid):
                 def ext(mo):
                     rel, a, b = mo.group(1), mo.group(2), mo.group(3)
                     lines_ = open(os.path.join(REPO, rel)).read().split("\n")
+                    incl = a.startswith("+")          # `<<+marker>>`: the marker line itself is part of the extracted text
+                    a = a[1:] if incl else a
                     ia = [i for i, l in enumerate(lines_) if a in l]
                     ib = [i for i, l in enumerate(lines_) if b in l]
                     if len(ia) != 1 or len(ib) != 1 or ib[0] <= ia[0]:
                         raise Undecided(f"lost anchor: extraction markers `{a}` / `{b}` matched {len(ia)} / {len(ib)} lines in {rel}")
-                    text = "\n".join(lines_[ia[0] + 1:ib[0]])
+                    text = "\n".join(lines_[ia[0] + (0 if incl else 1):ib[0]])
                     EXTRACTED.append(dict(file=rel, from_marker=a, to_marker=b, lines=ib[0] - ia[0] - 1, sha256=hashlib.sha256(text.encode()).hexdigest()))
                     return "// ---- extracted verbatim from " + rel + "\n" + text + "\n// ---- end of extraction"
                 src = re.sub(r"^\s*//@extract\s+(\S+)\s+<<(.*?)>>\s+<<(.*?)>>\s*$", ext, src, flags=re.M)
@@ -368,7 +370,7 @@ def run_single_with_playback(scratch, h, logdir):
 
 
 CHECK_RE = re.compile(
-    r"^Check (\d+): (\S+)\n\s+- Status: (\S+)\n\s+- Description: \"(.*?)\"\n(?:\s+- Location: (.*?)\n)?", re.M | re.S)
+    r"^Check (\d+): ([^\n]+)\n\s+- Status: (\S+)\n\s+- Description: \"(.*?)\"\n(?:\s+- Location: (.*?)\n)?", re.M | re.S)
 
 
 def parse_kani(out):
